@@ -98,8 +98,13 @@ pub fn build_object<'a, K: AsRef<str>>(
     let mut key_data = Vec::new();
     let mut val_data = Vec::new();
     let mut val_jentries = VecDeque::new();
+    // object keys are stored sorted and unique, the last value of a repeated key wins
+    let items: BTreeMap<String, &[u8]> = items
+        .into_iter()
+        .map(|(key, value)| (key.as_ref().to_string(), value))
+        .collect();
     for (key, value) in items.into_iter() {
-        let key = key.as_ref();
+        let key = key.as_str();
         // write key jentry and key data
         let encoded_key_jentry = (STRING_TAG | key.len() as u32).to_be_bytes();
         buf.extend_from_slice(&encoded_key_jentry);
